@@ -90,6 +90,17 @@ def units():
                     m2 = m % {'S': sz}
                     add('op.%s.%s.%s.%s' % (m2.split('__')[0] + '_' + m2.split('__')[1], fl, et, sz), (DPAT[fl] % sz) + '__' + m2, pp, fnum, bpat % sz, sz, elem)
                     us[-1]['defs']['EMPLACE_KIND'] = str(ek)
+    # ---- amc::Vector wrappers, callee replaced by contract (modular)
+    for elem in ('ElemNR', 'ElemTR'):
+        et = ELEM_TAG[elem]
+        for sz in ('u8',):
+            b = svb(elem, sz)
+            V4 = 'Vector_E_A_%s_Dyn_4' % sz
+            for m, props, rep in [('op_assign__rr' + V4, ['C01', 'C02', 'C05', 'C06', 'C07'], [b + '__move_assign__r%s_%s' % (b, sz)]),
+                                  ('shrink_to_fit__v', ['C01', 'C05', 'C06', 'C09', 'C18'], [b + '__shrink_impl__' + sz]),
+                                  ('swap__r' + V4, ['C01', 'C02', 'C05', 'C06', 'C07'], [b + '__swap_impl__r' + b])]:
+                add('vec4.%s.%s.%s' % (m.split('__')[0] + '_' + m.split('__')[1][:4], et, sz), V4 + '__' + m, props, 1, b, sz, elem, replace=rep)
+                us[-1]['defs']['VEC_N'] = '4'
     for sz in ('u8',):
         add('SafeNextCapacity.%s' % sz, 'SafeNextCapacity__%s_u64_b' % sz, ['C08', 'C18'], 1, svb('ElemNR', sz), sz, 'ElemNR')
     add('ExceptionGrowingPolicy.Check', 'Exc__Check__u64_u64', ['C08'], 1, svb('ElemNR', 'u8'), 'u8', 'ElemNR')
